@@ -149,7 +149,8 @@ class DataSet:
 
     def __init__(self, rng, n, ncoords, mode):
         self.n, self.mode = n, mode
-        self.xs, self.ys, self.vs = make_values(rng, n, ncoords, mode)
+        self.single = mode == 'single_data'
+        self.xs, self.ys, self.vs = make_single_values(rng, n, ncoords) if self.single else make_values(rng, n, ncoords, mode)
         self.yid = {bits(y): 6000000 + i + 1 for i, y in enumerate(self.ys)}
         self.order = sorted(range(n), key=lambda i: self.vs[i])
         self.svs = [self.vs[i] for i in self.order]
@@ -161,15 +162,55 @@ class DataSet:
                 out[bits(self.xs[k][i])] = (c + 1) * 1000000 + i + 1
         return out
 
+    def yid_of(self, y):
+        """id of the supplied data value y stands for: the same bits; for single-precision data the double the
+        file / the loader holds is compared in the precision of the data (float32(y) is the supplied float32)."""
+        if self.single and math.isfinite(y) and abs(y) < 3.0e38:
+            y = float(np.float32(y))
+        return self.yid.get(bits(y), UNKNOWN)
+
     def vid(self, v):
-        """id of the supplied variance within 4 ulp of v (at most one, by construction)."""
+        """id of the supplied variance within 4 ulp of v (at most one, by construction); ulp of the precision
+        of the data."""
         if not math.isfinite(v):
             return UNKNOWN
         j = bisect.bisect_left(self.svs, v)
         for k in (j - 1, j, j + 1):
+            if self.single:
+                if 0 <= k < self.n and abs(v - self.svs[k]) <= 4 * float(np.spacing(np.float32(self.svs[k]))):
+                    return 7000000 + self.order[k] + 1
+                continue
             if 0 <= k < self.n and ulp_diff(self.svs[k], v) <= 4:
                 return 7000000 + self.order[k] + 1
         return UNKNOWN
+
+
+def make_single_values(rng, n, ncoords):
+    """Single-precision data next to double-precision coordinates (what a detector image or a float32 reduction
+    saves): X as in mode 'random' / thirds and tenths that need all 17 digits, Y and the variances exact float32
+    numbers of ordinary magnitude (variances pairwise > 64 float32-ulp apart)."""
+    seen = set()
+    xs = []
+    for _ in range(ncoords):
+        col = []
+        while len(col) < n:
+            x = rng.choice([rand_finite(rng), rng.randrange(1, 10**6) / 3.0, rng.randrange(1, 10**6) / 10.0, rng.uniform(-5, 5)])
+            if bits(x) not in seen:
+                seen.add(bits(x))
+                col.append(x)
+        xs.append(col)
+    ys = []
+    while len(ys) < n:
+        y = float(np.float32(rng.choice([rng.uniform(-1e4, 1e4), rng.randrange(1, 10**5) / 10.0, rng.uniform(-1, 1) * 10.0 ** rng.randrange(-20, 20)])))
+        if bits(y) not in seen and y != 0.0:
+            seen.add(bits(y))
+            ys.append(y)
+    vs = []
+    while len(vs) < n:
+        v = float(np.float32(rng.uniform(1, 10) * 10.0 ** rng.randrange(-10, 10)))
+        if all(abs(v - w) > 1e-5 * max(v, w) for w in vs[-200:]) and (len(vs) < 200 or all(abs(v - w) > 1e-5 * max(v, w) for w in vs)):
+            vs.append(v)
+    return xs, ys, vs
 
 
 def make_values(rng, n, ncoords, mode):
@@ -310,6 +351,9 @@ def build_da(cfg, ds: DataSet, naming=NAMINGS[0], layout='plain', rng=None, shuf
         for k, c in order:
             coords[coord_name(naming, c)] = sc.scalar(xs[k][0], unit=cunit)
         da = sc.DataArray(data, coords=coords)
+    if getattr(ds, 'single', False):       # the data in single precision (exact: Y and variances are float32 numbers)
+        da = sc.DataArray(da.data.astype('float32'), coords={k: da.coords[k] for k in da.coords})
+        parent = None
     if cfg['masks']:
         if da.ndim:
             mv = np.zeros(da.shape, dtype=bool)
@@ -359,7 +403,7 @@ def observe_loaded(res, ds: DataSet, xid):
     if lx.dtype != np.float64 or ly.dtype != np.float64 or lv.dtype != np.float64:
         loaded = {'ok': True, 'rows': [[UNKNOWN, UNKNOWN, UNKNOWN] for _ in range(len(lx))]}     # not "bit-for-bit"
         return loaded, got
-    loaded = {'ok': True, 'rows': [[xid.get(bits(lx[i]), UNKNOWN), ds.yid.get(bits(ly[i]), UNKNOWN), ds.vid(float(lv[i]))]
+    loaded = {'ok': True, 'rows': [[xid.get(bits(lx[i]), UNKNOWN), ds.yid_of(float(ly[i])), ds.vid(float(lv[i]))]
                                    for i in range(len(lx))]}
     return loaded, got
 
@@ -444,7 +488,7 @@ class Runner:
                     if q == 0:
                         syms.append(xid.get(bits(val), UNKNOWN))
                     elif q == 1:
-                        syms.append(ds.yid.get(bits(val), UNKNOWN))
+                        syms.append(ds.yid_of(val))
                     else:
                         syms.append(ds.vid(val * val) if q == 2 else UNKNOWN)
                 lines.append(syms)
@@ -596,7 +640,9 @@ def run(ctx):
                'finite, >= 0 and pairwise more than 16 ulp apart, X / Y values pairwise distinct bit patterns, so the '
                'mapping double -> value-id is unambiguous')
     ctx.assume('a requested coordinate that does not exist must be refused (exception) as well')
-    ctx.assume('all values, variances and coordinates are float64 (the quantifier); integer or float32 inputs, coordinates '
+    ctx.assume('values, variances and coordinates are float64 (the quantifier), plus data sets whose DATA is float32 next to '
+               'float64 coordinates (coordinate bit-for-bit, values equal after rounding to float32, variances to 4 float32-ulp); '
+               'integer inputs, float32 coordinates, coordinates '
                'with variances, 0-d coordinates next to 1-d ones and coordinate names with line breaks are not generated')
     ctx.assume('the loaded DataArray carries the dimension name, coordinate name and units that load_xye was asked for '
                '(docstring of load_xye): "returns the chosen coordinate and the data values" is read for scipp objects, '
@@ -676,6 +722,11 @@ def run(ctx):
         if rng.random() < 0.3:      # later loads of this and of other paths (whatever they hold now)
             for _ in range(rng.randrange(1, 4)):
                 R.load(rng.randrange(1, NPATHS + 1), req=rng.choice(LOAD_REQS), via=rng.choice(['path', 'str', 'handle']))
+    # (c') single-precision data with double-precision coordinates: the coordinate still bit-for-bit, the data values
+    #      exactly (in their precision), the variances to 4 ulp of their precision
+    for n in [1, 2, 3, 50, 1000] + [rng.randrange(1, 200) for _ in range(200 if th else 25)]:
+        add(_writable_cfg(rng, n), rand_header(rng), 'single_data', rng.choice(targets), slot=rng.randrange(1, NPATHS + 1),
+            naming=rng.choice(NAMINGS), req=rng.choice(LOAD_REQS), load_via=rng.choice(['default', 'handle', 'str']))
     # (d) the scenarios of XyeStore: a few data sets, a few paths, saves and loads in any order; the same DataArray
     #     object saved again (to another target) without being rebuilt
     for _ in range(300 if th else 40):
@@ -806,7 +857,7 @@ def run(ctx):
     # Beamline/Source -> probe/device table of with_beamline, the audit_conform schema loop
     # (spec/metadata/Growth_*.tla; deviations are GROWTH-FINDINGs, not violations of C15)
     from .. import lib_growth_metadata
-    lib_growth_metadata.run(ctx)
+    ctx.run_growth(lib_growth_metadata.run, 'lib_growth_metadata')
 
 
 META = {
